@@ -301,28 +301,12 @@ fn collect_choice_labels_recursive(
                 let sub_scope = scope.choice_branch(label);
                 let mut child_index = 0;
                 if *indent > 0 {
-                    let mut nested_labels = BTreeMap::new();
                     collect_choice_labels_recursive(
                         &nodes[i + 1..],
                         &sub_scope,
-                        &mut nested_labels,
+                        labels,
                         &mut child_index,
                     );
-                    let nested_prefix = format!("{}.", sub_scope.path);
-                    for (nested_label, path) in nested_labels {
-                        let path = path
-                            .strip_prefix(&nested_prefix)
-                            .and_then(|suffix| {
-                                let first = suffix.split('.').next()?;
-                                first
-                                    .strip_prefix("g-")?
-                                    .parse::<usize>()
-                                    .ok()
-                                    .map(|_| format!("{}.{}", scope.path, suffix))
-                            })
-                            .unwrap_or(path);
-                        labels.insert(nested_label, path);
-                    }
                     return;
                 }
                 let body_end = nodes[i + 1..]
